@@ -204,3 +204,27 @@ pub fn hunt(n: usize, first: u64, count: u64) {
         }
     });
 }
+
+/// `fvh hunt-hzero <n> <first> <count>`: seeds whose public key h has a zero first or last coefficient.
+pub fn hunt_hzero(n: usize, first: u64, count: u64) {
+    let next = std::sync::atomic::AtomicU64::new(0);
+    std::thread::scope(|sc| {
+        for _ in 0..16 {
+            sc.spawn(|| loop {
+                let i = next.fetch_add(1, std::sync::atomic::Ordering::Relaxed);
+                if i >= count {
+                    break;
+                }
+                let seed = crate::util::seed32(0x420_0000_0000 + first + i);
+                let (_, pk) = api::keygen(n, seed);
+                if let Ok(h) = keys::decode_pk(&pk.to_bytes(), n) {
+                    if h[n - 1] == 0 || h[0] == 0 {
+                        println!("{} {} first={} last={}", n, hex(&seed), h[0], h[n - 1]);
+                    }
+                } else {
+                    println!("{} {} undecodable-public-key", n, hex(&seed));
+                }
+            });
+        }
+    });
+}
